@@ -179,6 +179,10 @@ def run_case(case, tmp):
     if content and ref_is_text(data[:512]) != window_text:
         raise AssertionError("unit kinds disagree with the reference text heuristic")
     algs = ["md5-dos2unix"] if stream == "legacy" else ["md5", "sha256", "blake3", "MD5"]
+    if stream == "plain" and case.get("id", 0) % 8 == 0:
+        # every algorithm name the platform's hashlib offers (the library hands any of them to hashlib.new), among them
+        # names that merely LOOK like the legacy one ("md5-sha1")
+        algs += sorted(a for a in hashlib.algorithms_available if not a.startswith("shake") and a not in algs)
     lf = conc(norm_tokens(content))
     recs = []
 
